@@ -184,6 +184,22 @@ CLAIMED['C13'] = dict(
          '(real study metadata) and service (SQLite file, new servicer per restart) level.'),
    note=BASE_TB + ' harness/translate/serial.py (Python-ast, fail-closed) regenerates coq/Gen/Serial.v; its list of members that are mutated through method calls (eagle pool/rng/initial designer, CMA queue/optimiser) is hand-written. Halton / numpy Generator / random.Random are taken as deterministic functions of seed and position.',
    technique='Rocq proof (simulation argument over histories with restarts; mixed-radix bijection; decimal round trip) + translator + vm_compute correspondence + differential restart monitor', design='5/C13')
+CLAIMED['C14'] = dict(
+   text=('Theorems (closed under the global context): over the table of random-stream constructions regenerated from the ten designer / sampler '
+         'classes on every run (argument data-flow: seed / seed-else-clock / seed-else-global / derived / dump / kwargs / entropy / clock / '
+         'global / stale), every stream built by a constructor is seeded from the seed or rng argument, every stream built by load() from the '
+         'dump, no method reads the clock or a global generator except for timing strings, and the seed reaches a stream of every class '
+         '(C14_every_stream_is_seeded); hence for ANY designer whose behaviour depends on the ambient (clock, global generators, OS entropy, '
+         'stale attributes) only through its stream seeds, two runs with the same seed and history agree for all ambients '
+         '(C14_same_seed_same_run), different seeds give different stream seeds (C14_seed_is_used), and the restore path is reproducible for '
+         'every class whose load() rebuilds all streams (C14_restored_same_seed_same_run); the unacceptable sources and the restore path of '
+         'NSGA-II (streams neither dumped nor re-seeded) are REFUTED with witnesses = known finding C14-nsga2-restore-unseeded. PARTIAL: the '
+         'premise "behaviour depends on the ambient only through the stream seeds" and the determinism of numpy / scipy / jax generators are '
+         'not proved; they are decided by differential runs (perturbed global generators and clock, another study first, fresh process with '
+         'another PYTHONHASHSEED) of designers, both designer policies and seeded benchmark runs. GP_UCB_PE and GAUSSIAN_PROCESS_BANDIT '
+         'cannot execute in this sandbox: static table only.'),
+   note=BASE_TB + ' harness/translate/rngsites.py (Python-ast data-flow, fail-closed) regenerates coq/Gen/RngSites.v; that CMA-ES load_state restores the PRNG key is hand-asserted there and checked by the differential runs.',
+   technique='Rocq proof (case analysis over stream sources, list induction) + translator + vm_compute correspondence of the table with observed reproducibility + differential two-run monitor', design='5/C14')
 ALL = ['C%02d' % i for i in range(1, 21)]
 m = {
  'version': 1,
